@@ -259,6 +259,18 @@ pub fn run_c07(args: &Args) -> Report {
             }
             c.extend_from_slice(&add);
         }
+        // an erroneous temp directive whose target is an existing txtpp source of the shape name.txtpp.ext:
+        // refused in every mode, so neither build nor clean may touch that source
+        if rng.chance(1, 4) {
+            p.files.push(("keep.txtpp.md".to_string(), b"kept\n".to_vec()));
+            let s0 = p.sources[0].clone();
+            let c = p.file_mut(&s0).unwrap();
+            let mut add = b"-TXTPP#temp keep.txtpp.md\n-gone\n~\n".to_vec();
+            if !c.ends_with(b"\n") && !c.is_empty() {
+                add.insert(0, b'\n');
+            }
+            c.extend_from_slice(&add);
+        }
         materialize(&p, &runner.dir);
         let (t0, _) = snapshot(&runner.dir);
         let mut cfg = RunCfg::build_all();
